@@ -748,7 +748,7 @@ func (b *budget) take(lagged bool) bool {
 	return true
 }
 
-// realNewNodeAgrees calls node.NewNode (nothing is started: no socket is bound) on the databases of a crash image.
+// realNewNodeAgrees calls node.NewNode (the node is not started) on the databases of a crash image.
 func realNewNodeAgrees(s *chainsim.Sim, img *world.DBSet, transcribed dbm.DB, val *consim.ValKey, h uint64, hash common.Hash) *verdict {
 	c := cfg.DefaultConfig()
 	c.SetRoot(img.Dir)
@@ -756,6 +756,9 @@ func realNewNodeAgrees(s *chainsim.Sim, img *world.DBSet, transcribed dbm.DB, va
 	c.FullNode = s.Spec.IsTrie
 	c.BootNodeSvr.Addrs = nil
 	c.ProfListenAddress = ""
+	// NewP2pManager binds its TCP listener at construction: any free loopback port, no look-up of an external interface
+	c.P2P.ListenAddress = "tcp://127.0.0.1:0"
+	c.P2P.ExternalAddress = "127.0.0.1"
 	c.Mempool.Broadcast = false
 	c.Mempool.BroadcastChanSize = 16
 	c.Mempool.CacheSize = 1000
